@@ -1,6 +1,8 @@
 import Bpp.Basic
 import Mathlib.Data.Fintype.BigOperators
 import Mathlib.Data.Fintype.Pi
+import Mathlib.LinearAlgebra.Basis.VectorSpace
+import Mathlib.LinearAlgebra.Pi
 /-! Counting form of batch soundness: how many weight vectors can make the weighted sum of the members' residuals
     vanish when some residual is not zero. -/
 open Finset
@@ -38,5 +40,40 @@ theorem cancelling_weights_card (k : ℕ) (R : Fin k → M) (i0 : Fin k) (h0 : R
   refine this.trans ?_
   rw [Finset.card_univ, Fintype.card_fun, Fintype.card_subtype_compl, Fintype.card_fin]
   simp
+
+/-- **Cancellation over any number of members.** Let `W r` be the vector of the members' factors on run `r` (one
+    run per choice of the batch's contents). A fixed non-zero vector of defects `E` that the factors annihilate on every
+    run exists exactly when the factor vectors do not span the whole space: factors that depend on the batch through
+    fewer independent quantities than there are members (a progression `a + i*b`, a short period) admit such an `E`,
+    independent draws (and the powers of one draw) do not. -/
+theorem fixed_cancel_iff_not_spanning {F : Type} [Field F] {ι : Type} (k : ℕ) (W : ι → (Fin k → F)) :
+    (∃ E : Fin k → F, E ≠ 0 ∧ ∀ r, ∑ i, W r i * E i = 0) ↔ Submodule.span F (Set.range W) ≠ ⊤ := by
+  constructor
+  · rintro ⟨E, hE, hW⟩ htop
+    apply hE
+    let f : (Fin k → F) →ₗ[F] F :=
+      { toFun := fun v => ∑ i, v i * E i
+        map_add' := by intro a b; simp [add_mul, Finset.sum_add_distrib]
+        map_smul' := by intro c a; simp [Finset.mul_sum, mul_assoc] }
+    have hle : Submodule.span F (Set.range W) ≤ LinearMap.ker f := by
+      rw [Submodule.span_le]; rintro _ ⟨r, rfl⟩; exact hW r
+    rw [htop] at hle
+    funext i
+    have := hle (Submodule.mem_top (x := Pi.single i (1 : F)))
+    simpa [f, Pi.single_apply] using this
+  · intro hne
+    obtain ⟨f, hf, hle⟩ := Submodule.exists_le_ker_of_lt_top _ (lt_top_iff_ne_top.mpr hne)
+    refine ⟨fun i => f (Pi.single i 1), ?_, ?_⟩
+    · intro h0
+      apply hf
+      ext i
+      simpa using congrFun h0 i
+    · intro r
+      have := hle (Submodule.subset_span ⟨r, rfl⟩)
+      rw [LinearMap.mem_ker, LinearMap.pi_apply_eq_sum_univ] at this
+      simp only [smul_eq_mul] at this
+      convert this using 3
+      show f (Pi.single _ 1) = _
+      congr 1; funext j; simp [Pi.single_apply, eq_comm]
 
 end Bpp
